@@ -49,7 +49,7 @@ func (c14) Info() core.Info {
 			"the re-read is skipped when the filtered PMT has no stream (that is C06's recorded finding about ReadPMT)",
 			"any number of output packets is accepted as long as headers match the inputs index-wise and the concatenated payload is the expected section followed only by 0xFF",
 		},
-		RequiredProbes: []string{"keep_none", "keep_some", "keep_all", "missing_some", "missing_all", "dup_requested", "pat_or_pmt_pid_requested", "multi_packet_in", "fewer_packets_out", "pointer_gt0", "af_in_header", "reread_ok", "empty_request", "remove_streams"},
+		RequiredProbes: []string{"keep_none", "keep_some", "keep_all", "missing_some", "missing_all", "dup_requested", "pat_or_pmt_pid_requested", "multi_packet_in", "fewer_packets_out", "pointer_gt0", "af_in_header", "reread_ok", "empty_request", "remove_streams", "refused_call_before"},
 	}
 }
 
@@ -278,6 +278,26 @@ func (c14) Exec(script interface{}, c *core.Ctx) {
 		c.Probe("keep_some")
 	}
 
+	// a refused call on another PMT first: nothing of it may leak into the call under test
+	if s.Out.Salt%2 == 0 {
+		other := ref.PMTSpec{Program: 9, Version: 1, CurrentNext: true, PCRPID: 0x51, Streams: []ref.ES{{Type: 0x02, PID: 0x51}, {Type: 0x03, PID: 0x52, Descs: []ref.Desc{{Tag: 10, Body: []byte("deu\x00")}}}}}
+		op := parties.Packetise(ref.Payload(0, [][]byte{other.Section()}, 0), parties.Carrier{PID: pmtPid, Styles: []string{"ff"}})
+		var ops []*packet.Packet
+		for i := range op {
+			p := packet.Packet(op[i])
+			ops = append(ops, &p)
+		}
+		var o2 []*packet.Packet
+		var e2 error
+		if !c.Call("psi.FilterPMTPacketsToPids(refused)", func() { o2, e2 = psi.FilterPMTPacketsToPids(ops, []int{0x1F77}) }) {
+			return
+		}
+		if o2 != nil || e2 == nil {
+			c.Fail("error_contract", "packets_though_none_present", len(o2), "nil + error")
+			return
+		}
+		c.Probe("refused_call_before")
+	}
 	keep := append([]int(nil), s.Keep...)
 	var out []*packet.Packet
 	var ferr error
